@@ -387,7 +387,14 @@ impl Inst {
                             "blte" => u64::from(off) + 30 + 1,
                             _ => u64::from(off) + 3,
                         };
-                        if s(op, "at") == "payload" && p.data.is_empty() {
+                        // the fault is aimed at this object's own record: where the index points must still begin with the
+                        // object's local header (after a cut / deletion the place may belong to another object by now)
+                        let own = std::fs::read(self.data_dir().join(format!("data.{id:03}"))).ok().is_some_and(|all| {
+                            let mut rk = p.ek;
+                            rk.reverse();
+                            all.len() as u64 >= u64::from(off) + u64::from(size) && all[off as usize..off as usize + 16] == rk
+                        });
+                        if !own || (s(op, "at") == "payload" && p.data.is_empty()) {
                             ev["res"] = json!("skip");
                         } else {
                             use std::io::{Read, Seek, SeekFrom, Write};
@@ -1254,11 +1261,17 @@ fn random_program(rng: &mut Rng, len: usize) -> Value {
     // long Installation histories over a larger universe; the same event grammar as the enumerated ones
     let npay = 3 + rng.below(5) as usize;
     let mut payloads = vec![];
+    let mut seen = std::collections::HashSet::new();
     for i in 0..npay {
         let cls = *rng.pick(&["plain", "plain", "comp", "nested"]);
         let len = if i == 0 { 0 } else { *rng.pick(&[1u64, 20, 33, 34, 100, 300, 5000]) };
         // (a nested payload of 9 bytes is the BLTE wrapping of the empty file: its content key would be the encoding key of an empty payload)
-        payloads.push(json!([format!("q{i}"), cls, len.max(if cls == "nested" { 10 } else { 0 })]));
+        // two names never denote the same bytes (short payloads of two names can coincide): lengthen until distinct
+        let mut len = len.max(if cls == "nested" { 10 } else { 0 });
+        while !seen.insert(md5hex(&content(&format!("q{i}"), cls, len as usize))) {
+            len += 1;
+        }
+        payloads.push(json!([format!("q{i}"), cls, len]));
     }
     let pn = |rng: &mut Rng| format!("q{}", rng.below(npay as u64));
     let mut roots = Map::new();
